@@ -668,6 +668,8 @@ def to_matched_score(
     snote_ids = []
     for i in sort_order:
         sn, n = note_pairs[int(i)]
+        # the (one-row) arrays of this pair as records
+        sn, n = sn[0], n[0]
         sn_on, sn_off = [sn["onset_beat"], sn["onset_beat"] + sn["duration_beat"]]
         sn_dur = sn_off - sn_on
         # hack for notes with negative durations
